@@ -49,7 +49,7 @@ type cliOp struct {
 
 func cliDir() string { return os.Getenv("VERIF_CLI_DIR") }
 
-const cliTimeout = 20 * time.Second
+const cliTimeout = 60 * time.Second
 
 // runCLI materialises the workspace, runs the tool once and collects everything.
 func runCLI(sc *Scenario, plan string) (*cliRun, error) {
